@@ -180,6 +180,30 @@ def judge(case, R, tin, tout, f):
         else:
             k = lexc.first_diff(da, db)
             f.append(("directives" + ls, "directive lines differ: input %s, output %s" % (da[k:k + 2], db[k:k + 2])))
+    # mod_move_case_break: a 'break;' may only step left across the ONE closing brace in front of it (into the case's own block);
+    # everything else keeps its order
+    lines_ = [re.sub(r"\s+", "", l) for l in (case.cfg_text or "").split("\n")]
+    if "mod_move_case_break=true" in lines_ and not [l for l in lines_ if l.startswith("mod_") and not l.startswith("mod_move_case_break")]:
+        def strip_breaks(seq):
+            rest, pos, k = [], [], 0
+            while k < len(seq):
+                if seq[k] == "break" and k + 1 < len(seq) and seq[k + 1] == ";":
+                    pos.append(len(rest))
+                    k += 2
+                else:
+                    rest.append(seq[k])
+                    k += 1
+            return rest, pos
+        ra, pa = strip_breaks(ca)
+        rb, pb = strip_breaks(cb)
+        if ra != rb or len(pa) != len(pb):
+            f.append(("move-case-break|order" + ls, "mod_move_case_break changed more than the position of 'break;' statements"))
+        else:
+            for x, y in zip(pa, pb):
+                if not (y == x or (y == x - 1 and ra[y] == "}")):
+                    f.append(("move-case-break|position" + ls, "a 'break;' moved from behind token %d to behind token %d of the remaining stream (%s | %s): only one step left across its block's '}' is a move into the case"
+                              % (x, y, " ".join(ra[max(0, y - 4):y]), " ".join(ra[y:y + 4]))))
+                    break
     # a brace pair may only be removed around a single statement
     if "{" in named and ans[0] == "1" and not sorts:
         for body in removed_brace_pairs(ca, cb):
@@ -201,6 +225,7 @@ SHAPES = ["if (a) b = 1; else c = 2;", "if (a) { b = 1; c = 2; } else d = 3;", "
                                                        "if (a ||\n    b) { c = 1; }", "if (a) { if (f(b,\n   c)) d = 1; }", "if (a) { switch (b) { case 1: c = 2; break; } } else { d = 3; }",
                                                        "while (a &&\n       b) { c--; }", "for (a = 0;\n     a < 3;\n     a++) { b++; }", "if (a) { while (f(b,\n    c)) d--; } else if (e) { g(1,\n 2); } else { h = 1; }",
                                                        "if (a) {\n/* *INDENT-OFF* */\n  b  =  1;\n/* *INDENT-ON* */\n  c = 2;\n}", "while (a) {\n// *INDENT-OFF*\n  b  =  1; c--;\n// *INDENT-ON*\n}", "if (a) for (i = 0; i < 2; i++) while (b) { if (c) d = 1; } else e = 2;", "if (a) while (b) { if (c) d = 1; } else e = 2;", "if (a) for (;;) { if (c) break; } else e = 2;",
+                                                       "switch (a) { case 1: { b = 1; }\nbreak;\ncase 2: {\n c = 2; }\nbreak;\ncase 3:\n{\n d = 3;\n}\nbreak;\ndefault: { e = 4; } break; }", "switch (a) { case 1: { return b; }\ncase 2: {\n c = 2; }\nreturn c; }",
                                                        "if (a) { int v = 1; }", "if (a) { MACRO(b) }", "#define RET_A return a // result\nif (b) { RET_A; }", "#define BUMP if (a) b++ /* bump */\nBUMP;", "return (a);", "return a + 1;", "return (a) + (b);"]
 
 
@@ -209,7 +234,7 @@ COMBOS = [["mod_full_brace_if_chain=1", "mod_full_brace_nl_block_rem_mlcond=true
           ["mod_full_brace_if=remove", "mod_full_brace_nl_block_rem_mlcond=true"], ["mod_full_brace_for=remove", "mod_full_brace_while=remove", "mod_full_brace_nl_block_rem_mlcond=true"],
           ["mod_full_brace_if=remove", "mod_full_brace_if_chain_only=true", "mod_full_brace_if_chain=1"], ["mod_full_brace_if=add", "mod_full_brace_nl=2"],
           ["mod_paren_on_return=remove", "mod_full_paren_return_bool=true"], ["mod_full_paren_if_bool=true", "mod_full_paren_assign_bool=true"],
-          ["mod_case_brace=remove", "mod_move_case_break=true", "mod_move_case_return=true"], ["mod_remove_empty_return=true", "mod_full_brace_function=add"]]
+          ["mod_case_brace=remove", "mod_move_case_break=true", "mod_move_case_return=true"], ["mod_move_case_break=true"], ["mod_move_case_return=true"], ["mod_remove_empty_return=true", "mod_full_brace_function=add"]]
 
 
 def mod_config(r):
